@@ -99,7 +99,9 @@ def positions(e, prod, pvar='p', env=None):
     raise AnalysisError(f'raw_query action: unmodelled expression `{norm(e)}`')
 
 
-SENTINELS = ["select {{ a }}, '{{b}} ; x' from T where `Mixed Name` = 'It''s'  -- c", 'SELECT  1;\n\n select 2']
+SENTINELS = ["select {{ a }}, '{{b}} ; x' from T where `Mixed Name` = 'It''s'  -- c", 'SELECT  1;\n\n select 2',
+             # characters that mean something to the libraries the text is later handed to (bind-parameter colons, percent signs, backslashes): still the user's text
+             "select ts::date, ' :b', 100 % 3 from t where at > '10:30' and n = :p and w like '50\\%'"]
 
 
 def check_stored_as_rebuilt(ctx, g, embed):
